@@ -24,7 +24,8 @@ EXPLANATION = (
     'exchange, retries=0 is honoured for the passive-ack sector select; R4 nfc.tag.activate catches CommunicationError; '
     'R5 tag controlled byte strings in the tag API (response frames, ATS, block data, control TLV values) are indexed, '
     'destructured or struct-unpacked only behind a length guard or in a handler -- unguarded reads are implicit IndexError / '
-    'struct.error raise sites fed to R1.  '
+    'struct.error raise sites fed to R1; R6 failure values: where a helper answers a failed tag access with None / (None, None, None) '
+    'instead of raising, every caller tests for it before computing with the result (nullness on the CFG).  '
     'Duplicate application of a retried state-changing command on the tag is not decided.')
 
 BOUND = dict(TAG_BOUNDARIES)
@@ -326,8 +327,8 @@ def rule_activate(report, prog, rule='C16-R4'):
     report.check(okk, rule, key(f.qname, 'every type specific activation is inside the try'), f.loc(), 'an activation call is outside the try')
 
 
-def rule_failure_values(report, prog, res, rule='C16-R5'):
-    """R5: helpers that answer a failed tag access with None / (None, None, None) instead of raising (read_tlv, the attribute
+def rule_failure_values(report, prog, res, rule='C16-R6'):
+    """R6: helpers that answer a failed tag access with None / (None, None, None) instead of raising (read_tlv, the attribute
     block readers, the ISO-DEP exchange): every caller in nfc.tag tests for that value before it computes with the result."""
     from .. import nullness
     funcs = [f for f in prog.functions.values() if f.qname.startswith('nfc.tag.')]
@@ -470,6 +471,11 @@ for _site in (("nfc.tag.tt1.Type1Tag.read_segment", "raise ValueError('invalid s
     triage.add('C16', 'C16-R1', key('ValueError', 'raised in ' + _site[0], _site[1]), _site[2], _site[3])
 
 MUTANTS = [
+    ('tt3-write-uses-unreadable-attributes', 'nfc.tag.tt3', """            if attributes is None:
+                # the attribute block was unreadable or failed the checksum
+                raise Type3TagCommandError(nfc.tag.RECEIVE_ERROR)
+""", "", 'C16-R6'),
+    ('tt1-loop-ignores-unreadable-tlv', 'nfc.tag.tt1', "elif tlv_t == 0xFE or tlv_t is None:", "elif tlv_t == 0xFE:", 'C16-R6'),
     ('tt2-protocol-mapping-dropped', 'nfc.tag.tt2', """            if type(error) is nfc.clf.ProtocolError:
                 raise Type2TagCommandError(nfc.tag.PROTOCOL_ERROR)
 """, "", 'C16-R'),
